@@ -12,6 +12,14 @@
  *                                            <order> = digits, each = "transfer i sends its next block request"; afterwards every
  *                                            unfinished transfer is completed; output per transfer <body hex|bad>:<responses>, `,`-joined
  *
+ *   wklive <events>                          a live server: `/`-separated events on ONE context, in order
+ *                                            `+<path>:<flags>:<attrs>` / `!<path>`  coap_add_resource / coap_delete_resource (as in <table>)
+ *                                            `a<path>:<own 0|4>:<name>[=<value>]`   coap_add_attr on the resource REGISTERED for <path>
+ *                                            `o<path>:<0|1>`                        coap_resource_set_get_observable on that resource
+ *                                            `g<sid 0..3><szx 0..6>:<queries>`      complete block-wise GET through coap_dispatch()
+ *                                            `p<filter>`                            coap_print_wellknown: size probe + full print
+ *                                            output: one `<body hex|bad>:<responses>` per g/p event, `,`-joined (`.` if none)
+ *
  *   <table>   `-` or `,`-separated entries  `+<path>:<flags>:<attrs>` (coap_add_resource) / `!<path>` (coap_delete_resource)
  *             flags: 1 observable, 2 COAP_RESOURCE_FLAGS_OSCORE_ONLY,
  *                    4 path/name/value are caller-owned exact-size objects (COAP_*_FLAGS_RELEASE_*), no NUL behind them
@@ -453,6 +461,108 @@ out:
   for (i = 0; i < XMAX; i++) { for (k = 0; k < 8; k++) free(xs[i].qv[k]); free(xs[i].buf); }
 }
 
+
+/* ---- wklive: the table changes between requests on one context; every request must see the table as it is ---- */
+static coap_resource_t *registered(const char *hex) {
+  size_t pl; uint8_t *p = h_unhex(hex, &pl);
+  coap_str_const_t ps;
+  coap_resource_t *r;
+  if (!p) return NULL;
+  ps.length = pl; ps.s = p;
+  r = coap_get_resource_from_uri_path(ctx, &ps);
+  free(p);
+  return r;
+}
+
+static int hex_ok(const char *hex) {
+  size_t l; uint8_t *p = h_unhex(hex, &l);
+  if (!p) return 0;
+  free(p);
+  return 1;
+}
+
+static void do_wklive(char *script) {
+  static char *ev[128];
+  coap_session_t *sess[4] = { NULL, NULL, NULL, NULL };
+  int n = split(script, '/', ev, 128), i, k, nout = 0;
+  unsigned mid = 0x3000;
+  if (n < 0) { printf("bad-op"); return; }
+  for (i = 0; i < n; i++) {
+    char *e = ev[i];
+    if (e[0] == '+' || e[0] == '!') {
+      if (!apply_entry(e)) { printf("%sbad-op", nout ? "," : ""); goto out; }
+    } else if (e[0] == 'a') {
+      char *f[3];
+      coap_resource_t *r;
+      if (split(e + 1, ':', f, 3) != 3 || !hex_ok(f[0])) { printf("%sbad-op", nout ? "," : ""); goto out; }
+      r = registered(f[0]);
+      if (r) {
+        if (!add_attr(r, f[2], atoi(f[1]) == 4)) { printf("%sbad-op", nout ? "," : ""); goto out; }
+      } else {
+        char *eq = strchr(f[2], '=');
+        if (eq) *eq = 0;
+        if (!hex_ok(f[2]) || (eq && !hex_ok(eq + 1))) { printf("%sbad-op", nout ? "," : ""); goto out; }
+      }
+    } else if (e[0] == 'o') {
+      char *f[2];
+      coap_resource_t *r;
+      if (split(e + 1, ':', f, 2) != 2 || !hex_ok(f[0])) { printf("%sbad-op", nout ? "," : ""); goto out; }
+      r = registered(f[0]);
+      if (r) coap_resource_set_get_observable(r, atoi(f[1]) != 0);
+    } else if (e[0] == 'g') {
+      struct xfer x;
+      char *q, *qw[8];
+      int sid, szx, good = 1;
+      memset(&x, 0, sizeof(x));
+      if (!e[1] || !e[2] || e[3] != ':') { printf("%sbad-op", nout ? "," : ""); goto out; }
+      sid = e[1] - '0'; szx = e[2] - '0'; q = e + 4;
+      if (sid < 0 || sid > 3 || szx < 0 || szx > 6) { printf("%sbad-op", nout ? "," : ""); goto out; }
+      if (strcmp(q, "N") && strcmp(q, "-")) {
+        int nq = split(q, '+', qw, 8);
+        if (nq < 0) good = 0;
+        for (k = 0; good && k < nq; k++) {
+          x.qv[k] = h_unhex(qw[k], &x.ql[k]);
+          if (!x.qv[k]) good = 0; else x.nq = k + 1;
+        }
+      }
+      if (!good) { for (k = 0; k < 8; k++) free(x.qv[k]); printf("%sbad-op", nout ? "," : ""); goto out; }
+      if (!sess[sid]) {
+        coap_address_t addr;
+        coap_address_init(&addr);
+        addr.size = sizeof(struct sockaddr_in);
+        addr.addr.sin.sin_family = AF_INET;
+        addr.addr.sin.sin_addr.s_addr = htonl(INADDR_LOOPBACK);
+        addr.addr.sin.sin_port = htons((uint16_t)(5683 + sid));
+        sess[sid] = coap_new_client_session(ctx, NULL, &addr, COAP_PROTO_UDP);
+        if (!sess[sid]) { for (k = 0; k < 8; k++) free(x.qv[k]); printf("%sfail-session", nout ? "," : ""); goto out; }
+      }
+      x.sid = sid;
+      while (!x.done)
+        if (!x_request(sess[sid], &x, i & 0xff, szx, mid++)) { x.done = 1; x.failed = 1; }
+      if (nout++) fputc(',', stdout);
+      if (x.failed) printf("bad"); else h_puthex(stdout, x.buf, x.blen);
+      printf(":%u", x.nresp);
+      for (k = 0; k < 8; k++) free(x.qv[k]);
+      free(x.buf);
+    } else if (e[0] == 'p') {
+      coap_string_t qs, *q;
+      if (!make_filter(e + 1, &qs, &q)) { printf("%sbad-op", nout ? "," : ""); goto out; }
+      get_full(q);
+      if (nout++) fputc(',', stdout);
+      if (full_ok) h_puthex(stdout, full, full_len); else printf("bad");
+      printf(":0");
+      free(full); full = NULL;
+      free(qs.s);
+    } else {
+      printf("%sbad-op", nout ? "," : ""); goto out;
+    }
+  }
+  if (!nout) printf(".");
+out:
+  for (i = 0; i < 4; i++) if (sess[i]) coap_session_release(sess[i]);
+  h_delete_all_resources();
+}
+
 static void do_match(const char *t, const char *p, int pfx, int sub) {
   size_t tl, pl;
   uint8_t *tb = h_unhex(t, &tl), *pb = h_unhex(p, &pl), *te, *pe;
@@ -472,6 +582,7 @@ static void step(char *line) {
   if (n == 4 && !strcmp(w[0], "wk")) { do_wk(w[1], w[2], w[3]); return; }
   if (n == 3 && !strcmp(w[0], "body")) { do_body(w[1], w[2]); return; }
   if (n == 4 && !strcmp(w[0], "get")) { do_get(w[1], w[2], atoi(w[3])); return; }
+  if (n == 2 && !strcmp(w[0], "wklive")) { do_wklive(w[1]); return; }
   if (n == 4 && !strcmp(w[0], "getx")) { do_getx(w[1], atoi(w[2]), w[3]); return; }
   if (n == 5 && !strcmp(w[0], "match")) { do_match(w[1], w[2], atoi(w[3]), atoi(w[4])); return; }
   printf("bad-op");
